@@ -2,8 +2,14 @@
 // ShmUpdater::{new, process_clock_update, process_missing_clock_update, write_clock_error_bound},
 // the FSM, and From<u16> for ChronyClockStatus.  Woven as a child module of `shm_writer`.
 use super::*;
+// (explicit imports: the harness must not depend on which names shm_writer.rs happens to import)
+use crate::thread_manager::Context;
+use crate::{ChronyClockStatus, Message};
 use chrony_candm::common::{ChronyAddr, ChronyFloat};
-use clock_bound_shm::ClockStatus;
+use chrony_candm::reply::Tracking;
+use clock_bound_shm::{ClockErrorBound, ClockStatus, ShmWrite, ShmWriter};
+use super::clock_state_fsm::{FSMState, ShmClockState};
+use std::path::Path;
 use std::time::{Duration, SystemTime, UNIX_EPOCH};
 
 // ---------------------------------------------------------------------------------------------
